@@ -10,7 +10,9 @@ LEVEL = "exploration"
 RULE = ("Hypothesis RuleBasedStateMachine: rules construct(family, member) (pool of up to 8 live instances, siblings "
         "of the same member allowed; families Hill, Shekel, Grishagin, GKLS, Shekel4, Rastrigin, XSquared, "
         "StronginC3) and evaluate(instance, point) with points drawn uniformly in the box, on faces and corners, at "
-        "the declared optimum, inside GKLS balls and from previously used points, supplied as ndarray or list; "
+        "the declared optimum, inside GKLS balls and from previously used points, supplied as a new ndarray or list or (one evaluation in three) through ONE container and Point per instance "
+        "that is overwritten in place between evaluations, the value then being compared with the same point in a "
+        "new array; "
         "for StronginC3 also the three constraint functions. Oracle: dictionary (family, member, function id, point "
         "bytes) -> first value seen; every later evaluation on any instance of that member must return the "
         "bit-identical value, leave the point unchanged and return the supplied holder with the value stored. "
